@@ -17,6 +17,6 @@ for c in m["checks"]:
     t = re.sub(r"and configurations [a-z, -]*\.$", ("and configurations %s." % ", ".join(extra)) if extra else "and configurations (none added).", t)
     c["level_claimed"]["text"] = t
     c["level_claimed"]["category"] = p["level"]
-    c["level_note"] = re.sub(r"Sensitivity: /verif/seeded \([^)]*\)", "Sensitivity: /verif/seeded (%d independently written breaking changes, all caught by the quick check of their property; DESIGN.md 12.5-12.9, seeded/RESULTS.txt)" % nseeded, c["level_note"])
+    c["level_note"] = re.sub(r"Sensitivity: /verif/seeded \([^)]*\)", "Sensitivity: /verif/seeded (%d independently written breaking changes, all caught by the quick check of their property; DESIGN.md 12.5-12.12, seeded/RESULTS.txt)" % nseeded, c["level_note"])
 json.dump(m, open(os.path.join(ROOT, "MANIFEST.json"), "w"), indent=1)
 print("refreshed", len(m["checks"]), "checks;", nseeded, "seeded changes")
